@@ -137,3 +137,54 @@ Proof.
       * exact (cl_dot a _ (pr a) _ Pa Pd).
 Qed.
 End PrintSpec.
+
+(* ---- the round trip through the parser (needs the completeness of the LR driver) ---- *)
+From GMK Require Import LexSpec LRSpec LRComplete ParseSpec.
+
+Section RoundTrip.
+Context (o : oracles) (atom_tok : sx -> token).
+
+Fixpoint atoms_real (e : sx) : Prop :=
+  match e with
+  | XNil => True
+  | XCons a d => atoms_real a /\ atoms_real d
+  | _ => real_token (atom_tok e)
+  end.
+
+Lemma fixed_tokens_real : real_token tk_lp /\ real_token tk_rp /\ real_token tk_sp /\ real_token tk_dot.
+Proof. unfold real_token. repeat split; simpl; try discriminate; vm_compute; auto; try lia. Qed.
+
+Lemma print_real : forall e, atoms_real e ->
+  Forall real_token (print atom_tok e) /\ Forall real_token (print_tail atom_tok e).
+Proof.
+  destruct fixed_tokens_real as [Hlp [Hrp [Hsp Hdot]]].
+  induction e as [|a IHa d IHd|s|z|s|s|s]; intros Hr.
+  2: { destruct Hr as [Hra Hrd]. destruct (IHa Hra) as [Pa _]. destruct (IHd Hrd) as [Pd Td]. split.
+       - simpl. apply Forall_cons; auto. apply Forall_app. split; auto. apply Forall_app. split; auto.
+       - simpl. apply Forall_cons; auto. apply Forall_app. split; auto. }
+  all: simpl in Hr; split; simpl; repeat (apply Forall_cons; [assumption|]); apply Forall_nil.
+Qed.
+
+(* print, then parse: the parser accepts and returns the printed expression *)
+Theorem print_parse : forall e, atoms_good o atom_tok e -> atoms_real e ->
+  parse_tokens o (print atom_tok e) = Accept e.
+Proof.
+  intros e Hg Hr. apply (parse_tokens_complete o tables_ok ctables_ok).
+  - exact (proj1 (print_real e Hr)).
+  - exact (proj1 (print_derives o atom_tok e Hg)).
+Qed.
+
+(* at the level of bytes, given that the lexer cuts the printed text into the printed tokens
+   (checked on every generated expression by the correspondence: Corr14.check14, case C15Print) *)
+Theorem print_parse_bytes : forall e, atoms_good o atom_tok e ->
+  lex_bytes (print_bytes atom_tok e) = (print atom_tok e, LEnd) ->
+  parse_bytes o (print_bytes atom_tok e) = Accept e.
+Proof.
+  intros e Hg Hl. eapply parse_bytes_complete; [exact Hl|]. exact (proj1 (print_derives o atom_tok e Hg)).
+Qed.
+
+(* and printing the result again gives the same tokens: Parse(String(e)).String() = String(e) *)
+Corollary print_parse_print : forall e v, atoms_good o atom_tok e -> atoms_real e ->
+  parse_tokens o (print atom_tok e) = Accept v -> print atom_tok v = print atom_tok e.
+Proof. intros e v Hg Hr H. rewrite (print_parse e Hg Hr) in H. inversion H. reflexivity. Qed.
+End RoundTrip.
